@@ -41,4 +41,27 @@ theorem sliceTo_negSucc {α : Type} (xs : List α) (k : Nat) (h : 0 < k) :
   rw [if_neg h1]
   simp
 
+/-- termination helper: a strictly stronger filter (that drops at least one element) is strictly shorter -/
+theorem filter_length_lt {α} (p q : α → Bool) (l : List α) (hpq : ∀ x, p x = true → q x = true)
+    (hex : ∃ x ∈ l, q x = true ∧ p x = false) : (l.filter p).length < (l.filter q).length := by
+  induction l with
+  | nil => obtain ⟨x, hx, _⟩ := hex; cases hx
+  | cons a l ih =>
+    have hle : ∀ l : List α, (l.filter p).length ≤ (l.filter q).length := by
+      intro l
+      induction l with
+      | nil => simp
+      | cons b l ihl =>
+        simp only [List.filter_cons]
+        cases hp : p b <;> cases hq : q b <;> simp <;> try omega
+        have := hpq b hp; simp [hq] at this
+    obtain ⟨x, hx, hqx, hpx⟩ := hex
+    simp only [List.filter_cons]
+    rcases List.mem_cons.mp hx with rfl | hx'
+    · simp [hqx, hpx]; have := hle l; omega
+    · have := ih ⟨x, hx', hqx, hpx⟩
+      cases hp : p a <;> cases hq : q a <;> simp <;> try omega
+      have := hpq a hp; simp [hq] at this
+
+
 end Py
